@@ -229,6 +229,8 @@ var reg = vk.Registry{
 	},
 }
 
+func init() { reg["sequence"] = vk.SequenceReplayer(reg) }
+
 func TestReplay(t *testing.T) { vk.RunReplay(t, reg) }
 
 func TestAlphabetExhaustive(t *testing.T) {
@@ -273,7 +275,12 @@ func evalSeq(t vk.TB, s []byte, constructed bool) {
 	if n := len(s); n > 0 && n%8 == 0 && (s[n-1] == 0x0d || (s[n-1] == 0 && s[n-2] < 0x40)) {
 		rec.Class("end_of_message_ambiguity_carve_out")
 	}
-	rec.Report(t, "seq", checkSeq(SeqCase{vk.Hex(s)}))
+	sc := SeqCase{vk.Hex(s)}
+	if constructed {
+		rec.Report(t, "seq", checkSeq(sc))
+	} else {
+		rec.ReportSeq(t, "seq", sc, func() *vk.Violation { return checkSeq(sc) })
+	}
 }
 
 func TestPackingEnumerations(t *testing.T) {
@@ -414,6 +421,7 @@ func TestTextsRandom(t *testing.T) {
 		}
 		rec.Class("texts")
 		rec.Sample("text", map[string]string{"text": txt})
-		rec.Report(t, "text", checkText(TextCase{vk.Hex([]byte(txt))}))
+		tc := TextCase{vk.Hex([]byte(txt))}
+		rec.ReportSeq(t, "text", tc, func() *vk.Violation { return checkText(tc) })
 	})
 }
